@@ -27,6 +27,7 @@ type vhTransport struct {
 	setFails  bool
 	rxErrs    int
 	rxAliens  int
+	down      bool       // the peer vanished and the transport noticed (Connected() turns false)
 	rxLog     []*Session // every session envelope received, in order
 	sentAtRx  []int      // number of envelopes sent when each was received
 }
@@ -62,6 +63,10 @@ func (t *vhTransport) Receive(_ context.Context) (envelope, error) {
 	e, err := t.rx(t)
 	if err != nil {
 		t.rxErrs++
+		if vParam("dropnotice", 0) == 1 && nondetBool("rx.drop-noticed") {
+			// like a TCP end-of-stream: the transport reports itself disconnected from now on
+			t.down = true
+		}
 		return nil, err
 	}
 	if s, ok := e.(*Session); ok {
@@ -99,7 +104,7 @@ func (t *vhTransport) SetEncryption(_ context.Context, e SessionEncryption) erro
 	t.enc = e
 	return nil
 }
-func (t *vhTransport) Connected() bool      { return !t.closed }
+func (t *vhTransport) Connected() bool      { return !t.closed && !t.down }
 func (t *vhTransport) LocalAddr() net.Addr  { return InProcessAddr("vh-local") }
 func (t *vhTransport) RemoteAddr() net.Addr { return InProcessAddr("vh-remote") }
 
